@@ -1,5 +1,7 @@
 import Geo.Props.C13
 #print axioms Geo.T13_from_points_contains
+#print axioms Geo.T13_from_crossratio_contains
+#print axioms Geo.T13_from_crossratio_agrees
 #print axioms Geo.T13_ellipse_locus
 #print axioms Geo.T13_sphere_locus
 #print axioms Geo.T13_ellipse_code_form
